@@ -231,6 +231,12 @@ def vec_nodes(n=3, full=True):
             ("lincomb", cs, v, "right"),
             ("lincomb", cs, ("vbin", "+", v, ("sc", 1.0))),
             ("dot", ("vbin", "*", v, ("sc", 2.0)), w),
+            # one operand a plain vector, the other an expression over the SAME vector
+            ("dot", v, ("vbin", "*", v, ("sc", 2.0))),
+            ("dot", ("vbin", "+", v, w), v),
+            ("dot", v, ("vbin", "-", v, ("arr", cs))),
+            ("dot", ("slice", v, None, None, -1), ("vbin", "*", v, w), "matmul"),
+            ("lincomb", cs, ("vbin", "*", v, v) if False else ("vbin", "*", v, ("sc", ("sym", "c")))),
             ("dot", v, ("matvec", [r + [0.0] * (n - len(r)) for r in [[1.0, 2.0, -1.0][:n], [0.0, ("sym", "a11"), 3.0][:n], [2.0, 0.5, 1.0][:n]][:n]], v)),
             ("quad", v, Q, "dot"),
             ("norm", ("vbin", "-", v, w), 2),
